@@ -10,7 +10,8 @@ Local Open Scope nat_scope.
 Record rcase := mkRCase {
   rc_ver : text;                       (* tornado.version *)
   rc_url : text; rc_method : text; rc_body : option (list N);
-  rc_headers : list (text * text);     (* h = HTTPHeaders(); h.add(n, v) for each *)
+  rc_headers : list (text * text);     (* h = HTTPHeaders(); h.add(n, v) for each -- or the items of a dict *)
+  rc_dict : bool;                      (* headers given as a plain dict (HTTPHeaders(dict) = update = __setitem__) *)
   rc_auth_user : option text; rc_auth_pass : option text;
   rc_maxred : option Z; rc_follow : option bool; rc_ua : option text;
   rc_script : list hop                 (* the server's answers, with urljoin's result for each *)
@@ -28,6 +29,8 @@ Definition obs_outcome (o : outcome) : obs :=
   | OTimeoutConnecting => OList [OTag "timeout"; OTag "connecting"]
   | OTimeoutRequest => OList [OTag "timeout"; OTag "request"]
   | OClosedRead => OList [OTag "closed"; OTag "read"]
+  | OClosedMalformed => OList [OTag "closed"; OTag "malformed"]
+  | OClosedCallback => OList [OTag "closed"; OTag "callback"]
   | OConnRefused => OList [OTag "error"; OTag "ConnectionRefusedError"]
   | OConnReset => OList [OTag "error"; OTag "ConnectionResetError"]
   | OKeyError => OList [OTag "error"; OTag "KeyError"]
@@ -73,6 +76,8 @@ Definition obs_final (f : final) : obs :=
   | FinCode c u => OList [OTag "code"; OInt c; OBytes u]
   | FinError e => OList [OTag "error"; obs_rerr e]
   | FinQuiet => OList [OTag "error"; OTag "_QuietException"]
+  | FinMalformed => OList [OTag "httperror"; OInt 599]
+  | FinStuck => OList [OTag "pending"]
   | FinUnmodelled => OTag "unmodelled"
   end.
 
@@ -87,6 +92,11 @@ Definition rcase_ascii (rc : rcase) : bool :=
 
 (* the request as AsyncHTTPClient.fetch hands it to fetch_impl *)
 Definition initial_req (rc : rcase) : option req :=
+  if rc_dict rc then
+    (* fetch(): HTTPHeaders(request.headers) with a dict: MutableMapping.update, no validation *)
+    Some (mkReq (rc_url rc) (rc_method rc) (rc_body rc) (update_all (rc_headers rc) empty_h)
+                (rc_auth_user rc) (rc_auth_pass rc) (rc_maxred rc) (rc_follow rc) (rc_ua rc))
+  else
   match add_all (rc_headers rc) empty_h with
   | (RUnit, h0) =>
       match copy h0 with                          (* fetch(): HTTPHeaders(request.headers) *)
@@ -123,10 +133,15 @@ Record chk := mkChk {
   k_ok : bool;
   k_last_start : option nat;      (* the last attempt that started *)
   k_done : list nat;              (* user fetches already completed *)
-  k_idle : bool                   (* the last snapshot showed nothing active and nothing queued *)
+  k_idle : bool;                  (* the last snapshot showed nothing active and nothing queued *)
+  k_sub : nat;                    (* fetches submitted so far *)
+  k_evs : list event              (* events whose snapshot has not been seen yet *)
 }.
 
 Definition znat (z : Z) : option nat := if (z <? 0)%Z then None else Some (Z.to_nat z).
+
+Definition chk_fail (k : chk) : chk :=
+  mkChk false (k_last_start k) (k_done k) (k_idle k) (k_sub k) (k_evs k).
 
 Definition chk_entry (max nf : nat) (k : chk) (o : obs) : chk :=
   match o with
@@ -134,29 +149,39 @@ Definition chk_entry (max nf : nat) (k : chk) (o : obs) : chk :=
       match znat a with
       | Some a' =>
           let ok := match k_last_start k with Some b => b <? a' | None => true end in
-          mkChk (k_ok k && ok) (Some a') (k_done k) (k_idle k)
-      | None => mkChk false (k_last_start k) (k_done k) (k_idle k)
+          mkChk (k_ok k && ok) (Some a') (k_done k) (k_idle k) (k_sub k) (k_evs k)
+      | None => chk_fail k
       end
   | OList [OTag "done"; OInt f; _] =>
       match znat f with
       | Some f' =>
           mkChk (k_ok k && (f' <? nf) && negb (mem f' (k_done k))) (k_last_start k)
-                (f' :: k_done k) (k_idle k)
-      | None => mkChk false (k_last_start k) (k_done k) (k_idle k)
+                (f' :: k_done k) (k_idle k) (k_sub k) (k_evs k)
+      | None => chk_fail k
       end
   | OList [OTag "snap"; OInt a; OInt q; OInt _; OInt _] =>
-      mkChk (k_ok k && (a <=? Z.of_nat max)%Z && (0 <=? a)%Z && (0 <=? q)%Z)
-            (k_last_start k) (k_done k) ((a =? 0)%Z && (q =? 0)%Z)
-  | _ => mkChk false (k_last_start k) (k_done k) (k_idle k)
+      (* one snapshot per event; conservation: every fetch submitted so far is waiting in the
+         queue, or holds a slot, or has completed *)
+      match k_evs k with
+      | e :: evs =>
+          let sub := (if is_fetch e then 1 else 0) + k_sub k in
+          mkChk (k_ok k && (a <=? Z.of_nat max)%Z && (0 <=? a)%Z && (0 <=? q)%Z &&
+                 (a + q + Z.of_nat (List.length (k_done k)) =? Z.of_nat sub)%Z)
+                (k_last_start k) (k_done k) ((a =? 0)%Z && (q =? 0)%Z) sub evs
+      | [] => chk_fail k
+      end
+  | _ => chk_fail k
   end.
 
 (* at most max_clients active at every snapshot; attempts start in submission order; no user
-   fetch completes twice; when the client is idle at the end, every fetch has completed *)
+   fetch completes twice; |active| + |queue| + completed = submitted after every event; when the
+   client is idle at the end, every fetch has completed *)
 Definition check_sched (max : nat) (es : list event) (o : obs) : bool :=
   match o with
   | OList l =>
-      let k := fold_left (chk_entry max (n_fetches es)) l (mkChk true None [] true) in
-      k_ok k && (negb (k_idle k) || (List.length (k_done k) =? n_fetches es))
+      let k := fold_left (chk_entry max (n_fetches es)) l (mkChk true None [] true 0 es) in
+      k_ok k && (negb (k_idle k) || (List.length (k_done k) =? n_fetches es)) &&
+      match k_evs k with [] => true | _ => false end
   | _ => false
   end.
 
@@ -186,6 +211,8 @@ Definition chk_pair (uo : usplit) (prev : obs) (hp : hop) (nx : obs) : bool :=
   match hop_start prev, hop_url nx, hop_start nx, hop_lines nx, hop_body nx with
   | Some pstart, Some url, Some start, Some ls, Some body =>
       is_redirect_code (hp_code hp) && hp_loc hp &&
+      (* a follow-up that failed before it wrote anything carried nothing *)
+      (negb (nonempty start) ||
       (* 303 to a non-HEAD request, 301/302 to a POST: a bodiless GET *)
       (negb (to_get (hp_code hp) (method_of pstart)) ||
        (text_eqb (method_of start) (T "GET") && negb (nonempty body) &&
@@ -203,7 +230,7 @@ Definition chk_pair (uo : usplit) (prev : obs) (hp : hop) (nx : obs) : bool :=
            (negb (nonempty (u_netloc uj)) ||
             (negb (has_at (u_netloc un)) && negb (has_header "authorization" ls))))
       | _, _ => false
-      end
+      end)
   | _, _, _, _, _ => false
   end.
 
@@ -232,6 +259,8 @@ Definition check_redir (rc : rcase) (o : obs) : bool :=
           | UUnmodelled => false
           end
       end
+  | OTag "unmodelled" => true    (* the model's own "outside my domain" marker; the implementation's
+                                    observable is never this tag, so nothing is accepted by it *)
   | _ => false
   end.
 
